@@ -113,6 +113,14 @@ func vpH_C17_T_retry() {
 	bc := DefaultBackoffConfig()
 	if cancelMode == 2 {
 		bc.InitialBackoff = 0 // no wait at all: the cancellation made inside the operation must still be seen
+	} else {
+		// configurations whose computed backoff is zero: the attempt bound holds for them as well
+		switch vpChoose("zero-backoff", 3) {
+		case 1:
+			bc.InitialBackoff = 0
+		case 2:
+			bc = BackoffConfig{}
+		}
 	}
 	ctx, cancel := context.WithCancel(vpRootCtx())
 	defer cancel()
